@@ -190,6 +190,104 @@ def one(ctx: Ctx, cs, damage=False, pname=None, over=None, derive=None):
         ctx.sample({'case_seed': cs, 'text': x, 'listing': [t.encoding for t in listing]})
 
 
+def preorder_tokens(d):
+    """The tokens of the Document's own tree, parent before children, children in order (read from the nodes, not through any query)."""
+    out, stack = [], [d.tree.root]
+    while stack:
+        n = stack.pop()
+        if n is not d.tree.root and n.token is not None:
+            out.append(n.token)
+        stack.extend(reversed(n.children))
+    return out
+
+
+def queries_agree_with_tree(ctx, d, label, case, rng):
+    """The queries of `d` against d's OWN tree as it is now: listing = the tree's tokens in pre-order, the same objects; encodings,
+    filtered listings, unique listings and frequencies derive from that listing."""
+    import kernpy as kp
+    TC = kp.TokenCategory
+    ctx.ev()
+    ctx.mon('tree_agreement_documents')
+    tree_toks = preorder_tokens(d)
+    try:
+        listing = d.get_all_tokens()
+        encs = d.get_all_tokens_encodings()
+    except Exception as ex:
+        ctx.violation('query-raises', f'[{label}] get_all_tokens() raised {type(ex).__name__}: {ex}', case)
+        return
+    if list(map(id, listing)) != list(map(id, tree_toks)):
+        j = next((i for i, (a, b) in enumerate(zip(listing, tree_toks)) if a is not b), min(len(listing), len(tree_toks)))
+        ctx.violation('listing-not-the-tree', f'[{label}] get_all_tokens() is not the sequence of the tree\'s own tokens: {len(listing)} vs '
+                      f'{len(tree_toks)} tokens, first difference at #{j}: '
+                      f'{listing[j].encoding if j < len(listing) else None!r} vs {tree_toks[j].encoding if j < len(tree_toks) else None!r}', case)
+        return
+    # (the encodings query leaves out tokens without an encoding - documented; the rests of a transposed document have none)
+    if encs != [t.encoding for t in tree_toks if t.encoding is not None]:
+        ctx.violation('encodings-query', f'[{label}] get_all_tokens_encodings() != the encodings of the tree\'s tokens', case)
+    cats = [t.category.name for t in tree_toks]
+    for f in [('NOTE_REST',), ('CORE',), ('BARLINES',), tuple(rng.sample(CT.ORDER, 3))]:
+        ctx.ev()
+        ctx.mon('tree_agreement_filtered_listings')
+        clo = CT.closure(f)
+        arg = [TC[c] for c in f]
+        want = [t for t, c in zip(tree_toks, cats) if c in clo]
+        try:
+            got = d.get_all_tokens(filter_by_categories=arg)
+            uniq = d.get_unique_tokens(filter_by_categories=arg)
+            freq = d.frequencies(token_categories=arg)
+        except Exception as ex:
+            ctx.violation('query-raises', f'[{label}] filter {f}: {type(ex).__name__}: {ex}', dict(case, filter=f))
+            continue
+        if list(map(id, got)) != list(map(id, want)):
+            ctx.violation('filtered-listing', f'[{label}] filter {f}: {len(got)} tokens, the tree holds {len(want)} tokens of these categories '
+                          f'(or other objects)', dict(case, filter=f))
+            continue
+        if any(t.encoding is None for t in want):
+            ctx.mon('tree_agreement_listings_with_tokens_without_encoding (unique / frequencies not judged)')
+            continue
+        seen, first = set(), []
+        for t in want:
+            if t.encoding not in seen:
+                seen.add(t.encoding)
+                first.append(t.encoding)
+        if [t.encoding for t in uniq] != first:
+            ctx.violation('unique-listing', f'[{label}] filter {f}: unique listing is not the first occurrences of the tree\'s tokens',
+                          dict(case, filter=f))
+        if sum(v['occurrences'] for v in freq.values()) != len(want) or set(freq) != seen:
+            ctx.violation('frequencies', f'[{label}] filter {f}: frequencies do not sum to the tree\'s tokens of these categories',
+                          dict(case, filter=f))
+
+
+def transposed_after_queries(ctx: Ctx, cs):
+    """Queries on a document, then a transposition of it, then the same queries on the result and on the source: each answers for the
+    tree it belongs to as that tree is NOW (whatever was computed for an earlier state of the nodes is of no use)."""
+    import kernpy as kp
+    rng = random.Random(cs ^ 0x7A5)
+    doc, pname = make_doc(cs, 'kern_only', allow_acc=False, p_chord=0.05)
+    x = doc.text(0)
+    d, e, exc = kpx.loads(x)
+    if exc is not None or e:
+        ctx.mon('precondition_failed')
+        return
+    case = {'case_seed': cs, 'text': x, 'transposed_after_queries': True}
+    queries_agree_with_tree(ctx, d, 'imported', case, rng)
+    d.get_unique_tokens()
+    d.frequencies()
+    kp.is_monophonic(d)
+    name, direction = rng.choice(['M2', 'm3', 'P4', 'P5', 'octave', 'M6']), rng.choice(['up', 'down'])
+    try:
+        t = d.to_transposed(name, direction)
+    except Exception as ex:  # noqa  (C15 decides when a transposition may be refused)
+        ctx.mon(f'transposition_refused:{type(ex).__name__}')
+        return
+    ctx.mon('transposed_after_queries_documents')
+    case = dict(case, interval=name, direction=direction)
+    queries_agree_with_tree(ctx, t, f'result of to_transposed({name}, {direction}) after queries on the source', case, rng)
+    queries_agree_with_tree(ctx, d, f'source after to_transposed({name}, {direction})', case, rng)
+    t2 = t.clone()
+    queries_agree_with_tree(ctx, t2, 'clone of the transposed document', case, rng)
+
+
 def run(ctx: Ctx):
     ctx.rule = ('documents of the C01 generator with global comments before, inside and after the spines, splits and joins (a fifth of them with '
                 '1..3 malformed **kern cells, i.e. error tokens in the tree). Oracle: '
@@ -205,6 +303,8 @@ def run(ctx: Ctx):
         one(ctx, cs, damage=(k % 5 == 4))
     for k, cs in enumerate(cases(ctx, 'c17-derived', n // 6)):
         one(ctx, cs, derive=['clone', 'concat'][k % 2])
+    for cs in cases(ctx, 'c17-transposed', n // 4):
+        transposed_after_queries(ctx, cs)
     # boundary documents: header + terminator, interpretations only, a single line (no measure at all / exactly one)
     for k, cs in enumerate(cases(ctx, 'c17-tiny', n // 4)):
         one(ctx, cs, pname='tiny', over=[{}, {'types': ('**kern',), 'max_spines': 1}, {'types': ('**kern',), 'p_sig': 0.9},
@@ -225,5 +325,8 @@ def run(ctx: Ctx):
 
 def replay(ctx, w):
     case = w.get('case', w)
+    if case.get('transposed_after_queries'):
+        transposed_after_queries(ctx, case['case_seed'])
+        return
     one(ctx, case['case_seed'], damage=case.get('damage', False), pname=case.get('pname'), over=case.get('over'), derive=case.get('derive'))
     print(case.get('text', ''))
